@@ -4,7 +4,13 @@
    Model: Check/Results.v (CheckResult), BMap.v (baseline as a finite map read through lookup),
    Ratchet.v, Baseline.v (apply_baseline_comparison, update_baseline_from_results, check_step =
    runner.rs:330-392, histories), FailFast.v. The model is that of the tree WITH the repairs
-   fixes/D09, D10, D12, D30 (and D11 for the ratchet): before them C09_update_idempotent,
+   fixes/D09, D10, D12, D30, D08 (and D11 for the ratchet): keys are path_key of the result path
+   ([norm_key], one leading dot-slash stripped, backslash to slash, empty and dot to dot) and a
+   loaded baseline is re-keyed ([rekey], [view]). The code normalises twice on some routes and
+   path_key is not idempotent on paths with two leading dot-slash prefixes; the model normalises
+   once, so theorems that feed a written baseline back into a run carry the hypothesis
+   [stable_results R] (every result key is a fixed point of norm_key) and, for entries kept from
+   an older file, [ostable (view disk)] (see Check/Results.v). Before the repairs C09_update_idempotent,
    C09_modes_preserve_other_kind, C09_new_never_drops (without --baseline) and
    C09_unrecorded_always_fails (under fail-fast) were refuted by the faithful model and by the
    binary (witness histories in known_findings/C09.json, section fixed).
@@ -22,6 +28,7 @@ Open Scope N_scope.
    is still reported Failed or a warning exists under warnings-as-errors (and warn-only is off) *)
 Theorem C09_roundtrip :
   forall (R : list result) (dirs : list key) (disk0 : option baseline) (we : bool) (fl : flags),
+  stable_results R ->
   f_baseline fl = true -> f_update fl = None ->
   let disk1 := o_disk (check_step (update_flags UAll we) R dirs disk0) in
   let out := check_step fl R dirs disk1 in
@@ -52,12 +59,13 @@ Theorem C09_unrecorded_always_fails :
 Proof. exact unrecorded_always_fails. Qed.
 Print Assumptions C09_unrecorded_always_fails.
 
-(* --update-baseline new never drops or rewrites an entry, with or without --baseline; the only
-   entries that may go are those an auto ratchet of the same run reported stale *)
+(* --update-baseline new never drops or rewrites an entry (of the file as loaded, i.e. under its
+   normalised key), with or without --baseline; the only entries that may go are those an auto
+   ratchet of the same run reported stale *)
 Theorem C09_new_never_drops :
   forall fl R dirs b k e,
   f_update fl = Some UNew ->
-  lookup k b = Some e ->
+  lookup k (rekey b) = Some e ->
   ~ In k (o_stale (check_step fl R dirs (Some b))) ->
   exists b', o_disk (check_step fl R dirs (Some b)) = Some b' /\ lookup k b' = Some e.
 Proof. exact new_never_drops. Qed.
@@ -71,11 +79,11 @@ Theorem C09_modes_preserve_other_kind :
   let d2 := o_disk (check_step (update_flags UStructure we) R dirs (Some b)) in
   (is_structure_entry e = true ->
    (olookup k d1 = Some e <->
-    lookup k b = Some e /\
+    lookup k (rekey b) = Some e /\
     forall r, In r R -> violating r = true -> is_structure r = false -> key_of r <> k)) /\
   (is_content_entry e = true ->
    (olookup k d2 = Some e <->
-    lookup k b = Some e /\
+    lookup k (rekey b) = Some e /\
     forall r, In r R -> violating r = true -> baselinable r <> None -> key_of r <> k)).
 Proof. exact modes_preserve_other_kind. Qed.
 Print Assumptions C09_modes_preserve_other_kind.
@@ -84,6 +92,7 @@ Print Assumptions C09_modes_preserve_other_kind.
    first and / or the second update loads the existing baseline *)
 Theorem C09_update_idempotent :
   forall m R dirs disk0 we we',
+  stable_results R -> ostable (view disk0) ->
   let d1 := o_disk (check_step (update_flags m we) R dirs disk0) in
   let d2 := o_disk (check_step (update_flags m we') R dirs d1) in
   forall k, olookup k d2 = olookup k d1.
@@ -91,16 +100,28 @@ Proof. exact update_idempotent. Qed.
 Print Assumptions C09_update_idempotent.
 
 (* reachable-state invariant: after ANY history of edits, updates and checks (any flags, any
-   restriction of the evaluated set) from any start state, every key of the baseline file was
-   there at the start or was the key of a violating result at an update that ran in the history;
-   for every project type and every evaluator *)
+   restriction of the evaluated set) from any start state, every key of the baseline file is a
+   key of the start file or the key of a violating result at an update that ran in the history,
+   possibly re-normalised by later loads. Stated as preservation of an arbitrary predicate that
+   survives normalisation; for every project type and every evaluator *)
 Theorem C09_history_inv :
   forall (project : Type) (eval : project -> list result) (dirs_of : project -> list key)
-         (ops : list (op project)) (st : hstate project) (k : key),
-  ocontains k (h_disk _ (run_history project eval dirs_of ops st)) = true ->
-  ocontains k (h_disk _ st) = true \/ In k (written_keys project eval dirs_of ops st).
+         (P : key -> Prop), (forall k, P k -> P (norm_key k)) ->
+  forall (ops : list (op project)) (st : hstate project),
+  (forall k, ocontains k (h_disk _ st) = true -> P k) ->
+  (forall k, In k (written_keys project eval dirs_of ops st) -> P k) ->
+  forall k, ocontains k (h_disk _ (run_history project eval dirs_of ops st)) = true -> P k.
 Proof. exact history_inv. Qed.
 Print Assumptions C09_history_inv.
+
+(* spelling independence of the key (fix D08): a path without a leading dot-slash, the same path
+   behind one "./" and behind one ".\" have one key; hence the three spellings are grandfathered
+   by the same entry *)
+Theorem C09_key_spelling_invariant :
+  forall p, strip_dot p = p ->
+  norm_key (46 :: 47 :: p) = norm_key p /\ norm_key (46 :: 92 :: p) = norm_key p.
+Proof. exact key_spelling_invariant. Qed.
+Print Assumptions C09_key_spelling_invariant.
 
 (* ---- non-vacuity and witnesses *)
 Definition fa : result := mkResult [46;47;97] Content Failed 12 10 [1].           (* ./a over *)
@@ -123,7 +144,7 @@ Print Assumptions C09_roundtrip_nonvacuous.
 (* the former D12 witness: baseline {a}, a and b over; the sequential fail-fast run now goes on
    past the grandfathered a, meets b and exits 1 *)
 Example C09_unrecorded_nonvacuous :
-  let bl := Some [([46;47;97], EContent 12 [1])] in
+  let bl := Some [([97], EContent 12 [1])] in
   let fl := mkFlags true None None None false false true in
   ff_seq bl [fa; fb] = [fa; fb] /\ o_exit (check_step fl (ff_seq bl [fa; fb]) [] bl) = 1.
 Proof. vm_compute. split; reflexivity. Qed.
@@ -134,15 +155,29 @@ Example C09_update_nonvacuous :
   let b := update_baseline_from_results [fa; dF] UAll None in
   o_disk (check_step (update_flags UAll true) [fa; dF] [] (Some b)) = Some b /\
   olookup [46] (o_disk (check_step (update_flags UContent true) [fa; fb] [] (Some b))) = Some (EStructure Files 3) /\
-  olookup [46;47;98] (o_disk (check_step (update_flags UContent false) [fa; fb] [] (Some b))) = Some (EContent 12 [2]).
+  olookup [98] (o_disk (check_step (update_flags UContent false) [fa; fb] [] (Some b))) = Some (EContent 12 [2]).
 Proof. vm_compute. repeat split; reflexivity. Qed.
 Print Assumptions C09_update_nonvacuous.
 
-(* known class still open (D8, reserved for C08): keys are raw paths, so the same file listed as
-   a.rs is not grandfathered by the entry ./a.rs *)
-Example C09_key_spelling_refuted :
+(* the former D8 witness: the file listed as a.rs, ./a.rs or .\a.rs is grandfathered by the
+   entry a legacy baseline spells ./a.rs (re-keyed on load); under the old key function
+   (backslash to slash only) the first one stayed Failed *)
+Example C09_key_spelling_nonvacuous :
   let bl := Some [([46;47;97], EContent 12 [1])] in
-  let a' := mkResult [97] Content Failed 12 10 [1] in
-  map r_status (o_results (check_step (mkFlags true None None None false false false) [a'] [] bl)) = [Failed].
-Proof. vm_compute. reflexivity. Qed.
-Print Assumptions C09_key_spelling_refuted.
+  let r1 := mkResult [97] Content Failed 12 10 [1] in
+  let r2 := mkResult [46;47;97] Content Failed 12 10 [1] in
+  let r3 := mkResult [46;92;97] Content Failed 12 10 [1] in
+  map r_status (o_results (check_step (mkFlags true None None None false false false) [r1; r2; r3] [] bl))
+  = [Grandfathered; Grandfathered; Grandfathered] /\
+  map norm_char [97] <> map norm_char [46;47;97].
+Proof. vm_compute. split; [reflexivity | discriminate]. Qed.
+Print Assumptions C09_key_spelling_nonvacuous.
+
+(* the hypotheses stable_results / ostable are satisfiable and exclude only doubled prefixes *)
+Example C09_stable_nonvacuous :
+  stable_results [fa; fb; wc; dF; dM] /\ stable_keyb (norm_key [46;47;46;47;97]) = false.
+Proof.
+  split; [|vm_compute; reflexivity].
+  intros r [H|[H|[H|[H|[H|[]]]]]]; subst r; vm_compute; reflexivity.
+Qed.
+Print Assumptions C09_stable_nonvacuous.
